@@ -60,6 +60,9 @@ CONSTANTS Tenants,        \* tenant names
           Procs,          \* caller threads
           Unlimited,      \* quota value meaning "no limit" (larger than any count)
           LegacyUpdates,  \* TRUE: the storage step of an update does nothing (pinned tree)
+          SkipUpdateAtZeroUsage,  \* TRUE: the storage step of an update is skipped while the tenant's counter of that
+                                  \* kind says 0 (self-test only: the counters drift -- a deletion of an id that was
+                                  \* never stored still decrements -- so they must not decide what is written)
           LegacyRecover   \* TRUE: recover adds to usage instead of setting it (pinned tree)
 
 VARIABLES wal, kv, usage, quota, pc, call, res, G, pend, stale
@@ -97,7 +100,8 @@ Effect(g, o) ==
       [] o.op = "UpdateEdge" -> IF o.id \in DOMAIN g.e THEN [g EXCEPT !.e[o.id].p = o.p] ELSE g
 
 \* what the storage step of the call does to the stored graph
-StoreEffect(g, o) == IF LegacyUpdates /\ IsUpdate(o) THEN g ELSE Effect(g, o)
+StoreEffect(g, o, u) ==
+    IF IsUpdate(o) /\ (LegacyUpdates \/ (SkipUpdateAtZeroUsage /\ u[Kind(o)] = 0)) THEN g ELSE Effect(g, o)
 
 WalEntry(o) == [k |-> o.op, t |-> o.t, id |-> o.id]
 
@@ -180,7 +184,7 @@ WalAppend(p) ==
 
 Store(p) ==
     /\ pc[p] = "put"
-    /\ kv' = [kv EXCEPT ![call[p].t] = StoreEffect(@, call[p])]
+    /\ kv' = [kv EXCEPT ![call[p].t] = StoreEffect(@, call[p], usage[call[p].t])]
     /\ pc' = [pc EXCEPT ![p] = IF IsUpdate(call[p]) THEN "ret" ELSE "inc"]
     /\ UNCHANGED <<wal, usage, quota, call, res, G, pend, stale>>
 
@@ -205,7 +209,7 @@ CallDone(o, ok) ==
     /\ AllIdle /\ pend = {} /\ o.t \notin stale
     /\ IF ok
        THEN /\ wal' = Append(wal, WalEntry(o))
-            /\ kv' = [kv EXCEPT ![o.t] = StoreEffect(@, o)]
+            /\ kv' = [kv EXCEPT ![o.t] = StoreEffect(@, o, usage[o.t])]
             /\ usage' = [usage EXCEPT ![o.t] = Bump(@, o)]
             /\ G' = [G EXCEPT ![o.t] = Effect(@, o)]
        ELSE UNCHANGED <<wal, kv, usage, G>>          \* refused / failed: nothing is left behind
